@@ -376,6 +376,7 @@ class World:
         self.noise = None
         self.eager_quiet = False
         self.since_pong = {"c": 0, "s": 0}
+        self.iter_start_since_pong = {"c": 0, "s": 0}
         self.asked = {"c": False, "s": False}
         self.over_budget = []
         self.log = []               # micro-step events (model input)
@@ -600,6 +601,7 @@ class World:
         def gp(channel, cmd, data):
             if cmd == 0x4202:
                 w.since_pong[side] = 0
+                w.iter_start_since_pong[side] = 0
                 w.asked[side] = False
             w.rec = {"conn": "d", "recv": "a", "send": "a", "shut": "1"}
             idx = len(w.log)
@@ -612,11 +614,12 @@ class World:
         def send(channel, cmd, data):
             w.sent_log[side].append((cmd, len(data), bool(m.too_full)))
             # the harness's own count of what this end has queued since the last acknowledgement
+            # (judged on the count at the START of this loop iteration: check_fullness runs after every iteration,
+            # so an end that was over budget then has asked — whatever else, stream or datagram, was queued since)
             if cmd == 0x4206 and w.latency and not w.asked[side]:
-                slack = 2048 * 4 * max(1, len(w.prox[side])) + 128
-                if w.since_pong[side] > w.lbs + slack:
-                    w.over_budget.append({"side": side, "queued_since_ack": w.since_pong[side], "budget": w.lbs,
-                                          "allowance": w.lbs + slack})
+                if w.iter_start_since_pong[side] > w.lbs:
+                    w.over_budget.append({"side": side, "queued_since_ack_at_iteration_start": w.iter_start_since_pong[side],
+                                          "budget": w.lbs})
             if cmd == 0x4201 and bytes(data) == b"rttest":
                 w.asked[side] = True
             w.since_pong[side] += len(data)
@@ -694,6 +697,7 @@ class World:
         """one iteration of the main loop of `side`: runonce (+ check_fullness)"""
         ssnet = self.ssnet
         self.cur_side = side
+        self.iter_start_since_pong[side] = self.since_pong[side]
         hs = self.handlers[side]
         for h in hs:
             if not h.ok and isinstance(h, ssnet.Proxy):
@@ -1129,8 +1133,8 @@ def check_oracles(w):
     # latency control on: an end never queues stream payload far beyond its budget without having asked for an
     # acknowledgement (budget + 2048 bytes per callback, at most 4 callbacks per connection and iteration)
     for ob in getattr(w, "over_budget", [])[:1]:
-        out["C09"].append(("stream payload queued beyond the configured budget plus the per-iteration allowance without a "
-                           "round-trip request having been sent", ob))
+        out["C09"].append(("stream payload queued although the end was over its budget at the start of the loop iteration and "
+                           "no round-trip request had been sent", ob))
     # an end that is still paused when nothing moves any more has no acknowledgement to wait for
     if getattr(w, "calm", 0) >= 3 and not w.crash and w.latency:
         for side in ("c", "s"):
@@ -1355,8 +1359,9 @@ def stream_replay(ctx, rp, prop):
         print("nothing replayable")
         return False
     w = run_case(ctx, case)
-    out = ctx.run_driver([w.model_line()])[0]
-    compare(ctx, w, out, "replay")
+    if not case.get("noise"):           # cases with datagram-style traffic have no model counterpart
+        out = ctx.run_driver([w.model_line()])[0]
+        compare(ctx, w, out, "replay")
     orc = check_oracles(w)
     print("oracle results:", orc.get(prop), "disagreements:", len(ctx.disagreements))
     return bool(orc.get(prop)) or bool(ctx.disagreements)
